@@ -5,6 +5,7 @@ open TFVerif.C05
 #print axioms slice_step1_is_drop_take
 #print axioms positions_in_range
 #print axioms raises_iff
+#print axioms batched_arange_code_eq_doc
 #print axioms mnt_select_refines
 #print axioms mnt_result_wellformed
 #print axioms mnt_chain_refines
